@@ -603,6 +603,7 @@ type stream struct {
 
 	// owned by serverConn's serve loop:
 	bodyBytes        int64   // body bytes seen so far
+	connWindowHeld   int64   // conn-level inflow taken by DATA frames and not returned yet
 	declBodyBytes    int64   // or -1 if undeclared
 	flow             flow    // limits writing from Handler to client
 	inflow           flow    // what the client is allowed to POST/etc to us
@@ -1459,6 +1460,10 @@ func (sc *serverConn) closeStream(st *stream, err error) {
 	}
 	delete(sc.streams, st.id)
 	if p := st.body; p != nil {
+		// Return the conn-level flow control of the bytes the handler
+		// has not read (and is not credited for after the close, see
+		// noteBodyRead) or that were discarded.
+		sc.sendWindowUpdate(nil, int(st.connWindowHeld))
 		p.CloseWithError(err)
 		if st.defaultStreamWindow() {
 			p.Release(&fixBufferPool)
@@ -1618,6 +1623,13 @@ func (sc *serverConn) processData(f *DataFrame) error {
 	if st.declBodyBytes != -1 && st.bodyBytes+int64(len(data)) > st.declBodyBytes {
 		err := fmt.Errorf("sender tried to send more than declared Content-Length of %d bytes", st.declBodyBytes)
 		st.body.CloseWithError(err)
+		// Still enforce the connection-level flow control; closeStream
+		// returns the bytes since we're not going to consume them.
+		if sc.inflow.available() < int32(f.Length) {
+			return StreamError{id, ErrCodeFlowControl, "connection-level flow control window error"}
+		}
+		sc.inflow.take(int32(f.Length))
+		st.connWindowHeld += int64(f.Length)
 		// RFC 7540, sec 8.1.2.6: A request or response is also malformed if the
 		// value of a content-length header field does not equal the sum of the
 		// DATA frame payload lengths that form the body.
@@ -1630,6 +1642,7 @@ func (sc *serverConn) processData(f *DataFrame) error {
 			return StreamError{id, ErrCodeFlowControl, errMsg}
 		}
 		st.inflow.take(int32(f.Length))
+		st.connWindowHeld += int64(f.Length)
 
 		if len(data) > 0 {
 			wrote, err := st.body.Write(data)
@@ -1648,6 +1661,7 @@ func (sc *serverConn) processData(f *DataFrame) error {
 		if pad := int(f.Length) - int(len(data)); pad > 0 {
 			sc.sendWindowUpdate(nil, pad) // conn-level
 			sc.sendWindowUpdate(st, pad)  // stream-level
+			st.connWindowHeld -= int64(pad)
 		}
 	}
 	if f.StreamEnded() {
@@ -2128,6 +2142,11 @@ func (sc *serverConn) noteBodyReadFromHandler(st *stream, n int) {
 
 func (sc *serverConn) noteBodyRead(st *stream, n int) {
 	sc.serveG.Check()
+	if st.state == stateClosed {
+		// closeStream has returned the conn-level window of these bytes.
+		return
+	}
+	st.connWindowHeld -= int64(n)
 	sc.sendWindowUpdate(nil, n) // conn-level
 	if st.state != stateHalfClosedRemote && st.state != stateClosed {
 		// Don't send this WINDOW_UPDATE if the stream is closed
